@@ -262,6 +262,11 @@ def _equality_connect(is_sparse: bool, newton: bool):
     Jqvel = wp.vec3f(0.0, 0.0, 0.0)
     Jdotv = wp.vec3f(0.0, 0.0, 0.0)
 
+    # impedance weights use the equality's own bodies (as MuJoCo and the dense path do),
+    # not the weld parents substituted below for the sparse Jacobian chain walk
+    body1_invweight = body1
+    body2_invweight = body2
+
     if wp.static(is_sparse):
       # TODO(team): pre-compute number of non-zeros
       body1 = body_weldid[body1]
@@ -456,7 +461,7 @@ def _equality_connect(is_sparse: bool, newton: bool):
         Jdotv += j1mj2_dot * qvel
 
     body_invweight0_id = worldid % body_invweight0.shape[0]
-    invweight = body_invweight0[body_invweight0_id, body1][0] + body_invweight0[body_invweight0_id, body2][0]
+    invweight = body_invweight0[body_invweight0_id, body1_invweight][0] + body_invweight0[body_invweight0_id, body2_invweight][0]
     pos_imp = wp.length(pos)
 
     solref = eq_solref[worldid % eq_solref.shape[0], eqid]
@@ -1119,6 +1124,11 @@ def _equality_weld(is_sparse: bool, newton: bool):
     Jdotv_p = wp.vec3f(0.0, 0.0, 0.0)
     Jdotv_r0 = wp.vec3f(0.0, 0.0, 0.0)
 
+    # impedance weights use the equality's own bodies (as MuJoCo and the dense path do),
+    # not the weld parents substituted below for the sparse Jacobian chain walk
+    body1_invweight = body1
+    body2_invweight = body2
+
     if wp.static(is_sparse):
       # TODO(team): pre-compute number of non-zeros
       body1 = body_weldid[body1]
@@ -1353,7 +1363,7 @@ def _equality_weld(is_sparse: bool, newton: bool):
     crot = wp.vec3(crotq[1], crotq[2], crotq[3]) * torquescale
 
     body_invweight0_id = worldid % body_invweight0.shape[0]
-    invweight_t = body_invweight0[body_invweight0_id, body1][0] + body_invweight0[body_invweight0_id, body2][0]
+    invweight_t = body_invweight0[body_invweight0_id, body1_invweight][0] + body_invweight0[body_invweight0_id, body2_invweight][0]
 
     pos_imp = wp.sqrt(wp.length_sq(cpos) + wp.length_sq(crot))
 
@@ -1406,7 +1416,7 @@ def _equality_weld(is_sparse: bool, newton: bool):
 
       efc_aref_out[worldid, efcid + i] -= Jdotv_p[i]
 
-    invweight_r = body_invweight0[body_invweight0_id, body1][1] + body_invweight0[body_invweight0_id, body2][1]
+    invweight_r = body_invweight0[body_invweight0_id, body1_invweight][1] + body_invweight0[body_invweight0_id, body2_invweight][1]
 
     for i in range(3):
       _efc_row(
